@@ -116,6 +116,18 @@ theorem C04_merge_creates_at_most_one (g : G) (ls : List Nat) (req : Props) (hg 
   · exact Nat.le_succ _
   · simp [G.addNode]
 
+/-- every row evaluates the pattern against the graph **as it is now**: when no node of the
+current graph matches — e.g. because an earlier row's ON CREATE / ON MATCH SET rewrote the key
+the pattern matches on — the row creates a node, whatever earlier rows were bound to -/
+theorem C04_merge_creates_when_no_match_now (g : G) (ls : List Nat) (req : Props)
+    (h : ¬ HasMatch g ls req) : (mergeReq g ls req).nodes.length = g.nodes.length + 1 := by
+  unfold mergeReq
+  split
+  · rename_i n hsome
+    exact absurd ⟨n, List.mem_of_find?_eq_some hsome,
+      List.find?_some (p := fun n => nodeMatches n ls req) hsome⟩ h
+  · simp [G.addNode]
+
 /-- later rows see earlier creates: two rows asking for the same pattern create one node -/
 theorem C04_merge_rows_see_earlier_creates (g : G) (ls : List Nat) (req : Props) (hg : GoodReq req) :
     mergeAll g [(ls, req), (ls, req)] = mergeAll g [(ls, req)] := by
@@ -215,12 +227,21 @@ def obsOf (g : G) : R (G × List (List V)) → Obs
 specification the harness evaluates on the engine's observations -/
 theorem C04_model_refines_spec (ps : Props) (g : G) (q : Stmt) :
     specStmt ps g q (obsOf g (exec ps g q)) [] = true := by
+  have hren : ∀ v : V, renV [] v = v := by
+    intro v; cases v <;> simp [renV, renId]
+  have hrows : ∀ rows : List (List V), rows.map (·.map (renV [])) = rows := by
+    intro rows
+    have : (fun r : List V => r.map (renV [])) = id := by
+      funext r
+      have h2 : (renV []) = (id : V → V) := funext hren
+      rw [h2]; simp
+    simp [this]
   unfold specStmt obsOf
   cases h : exec ps g q with
   | error e => simp [bagEq_refl]
   | ok r =>
     obtain ⟨g', rows⟩ := r
-    simp [bagEq_refl]
+    simp [bagEq_refl, hrows]
 
 /-! ### the pinned tree violated the property -/
 
@@ -239,6 +260,13 @@ theorem C04_plain_delete_refused_on_witness :
 /-! ### non-vacuity -/
 
 example : gAB.wf = true := by decide
+/-- the seeded-change witness C04-b: `UNWIND [1,2,3] AS x MERGE (s:L0 {k0: 0}) ON CREATE SET s.k0 = 1,
+s.k1 = x RETURN s` creates three nodes and returns three different handles -/
+example : (okOf (exec [] G.empty
+    ⟨[.unwind (.lcons (.lit (.int 1)) (.lcons (.lit (.int 2)) (.lcons (.lit (.int 3)) .lnil))) 0,
+      .merge ⟨some 1, [0], [(0, .lit (.int 0))]⟩ [.prop 1 0 (.lit (.int 1)), .prop 1 1 (.var 0)] []],
+     some [.var 1]⟩)).map (fun r => (r.1.nodes.length, r.2))
+    = some (3, [[.node 0], [.node 1], [.node 2]]) := by decide
 /-- the seeded-change witness: three `:L0` nodes, one `:L1 {k0: 7}`; MERGE (n:L0:L1 {k0: 7}) must create -/
 example : (okOf (exec [] ⟨[⟨1, [0], [(0, .int 1)]⟩, ⟨2, [0], [(0, .int 2)]⟩, ⟨3, [0], [(0, .int 3)]⟩,
       ⟨4, [1], [(0, .int 7)]⟩], []⟩
